@@ -149,6 +149,31 @@ def cpLoop (pt : PT) (n : Nat) : Nat → List CP → Nat → Nat → List CP →
       | _, _ => .error .panic
     else .ok (verts, start, e, curve)
 
+/-- the part of `convert_points` after the vertices are read and typed: the segment loop and the
+final `extend` -/
+def cpTail (curve verts : List CP) (epl : Nat) (pt : PT) : List CP × Except Err Unit :=
+  if verts.length < epl then (curve, .error .panic) else     -- `vertices.len() - end_point_len`
+  match cpLoop pt (verts.length - epl) (verts.length - epl + 1) verts 0 0 curve with
+  | .error e => (curve, .error e)
+  | .ok (verts', start, e, curve') =>
+    if e > start then
+      match slice? verts' start e with
+      | none => (curve, .error .panic)
+      | some sl => (curve' ++ sl, .ok ())
+    else (curve', .ok ())
+
+/-- `if path_type == PERFECT_CURVE { if let [a, b, c] = vertices { if is_linear {LINEAR} } else {BEZIER} }` -/
+def resolvePT (pt0 : PT) (verts : List CP) : PT :=
+  if pt0 = .perfect then
+    (match verts with
+     | [a, b, c] => if isLinear a b c then .linear else .perfect
+     | _ => .bezier none)
+  else pt0
+
+/-- the vertices of one segment: optional default head, the points, optional end point -/
+def cpVerts (first : Bool) (vs ev : List CP) : List CP :=
+  (if first then [⟨0, 0, none⟩] else []) ++ vs ++ ev
+
 /-- `BeatmapState::convert_points`: new `curve_points` and result.  On an error `curve_points` is
 unchanged (every `?` precedes the first `extend`). -/
 def convertPoints (curve : List CP) (points : List Str) (endPoint : Option Str) (first : Bool)
@@ -156,35 +181,17 @@ def convertPoints (curve : List CP) (points : List Str) (endPoint : Option Str) 
   match points with
   | [] => (curve, .error .invalidHitObjectLine)
   | tyStr :: pts =>
-    let pt0 := ptOfStr tyStr
-    let v0 : List CP := if first then [⟨0, 0, none⟩] else []
     match readPoints ox oy pts with
     | .error e => (curve, .error e)
     | .ok vs =>
       match endVertex endPoint ox oy with
       | .error e => (curve, .error e)
       | .ok ev =>
-        let verts := v0 ++ vs ++ ev
-        let epl := ev.length
-        let pt := if pt0 = .perfect then
-            (match verts with
-             | [a, b, c] => if isLinear a b c then .linear else .perfect
-             | _ => .bezier none)
-          else pt0
-        match verts with
+        match cpVerts first vs ev with
         | [] => (curve, .error .invalidHitObjectLine)
         | v :: rest =>
-          let verts := { v with ty := some pt } :: rest
-          if verts.length < epl then (curve, .error .panic) else
-          let n := verts.length - epl
-          match cpLoop pt n (n + 1) verts 0 0 curve with
-          | .error e => (curve, .error e)
-          | .ok (verts, start, e, curve') =>
-            if e > start then
-              match slice? verts start e with
-              | none => (curve, .error .panic)
-              | some sl => (curve' ++ sl, .ok ())
-            else (curve', .ok ())
+          let pt := resolvePT (ptOfStr tyStr) (v :: rest)
+          cpTail curve ({ v with ty := some pt } :: rest) ev.length pt
 
 /-- the closure of `convert_path_str` (`ps` = the `|`-pieces as an indexable slice) -/
 def pathLoop (ps : List Str) (ox oy : Int) : Nat → Nat → Nat → Bool → List CP →
@@ -273,58 +280,72 @@ def sliderLen (f : Option Str) : Except Err (Option Nat) :=
       let l := F64.max l 0
       .ok (if notEq64 l 0 then some l else none)
 
-/-- everything of `parse_hit_objects` between the five mandatory fields and the final pushes:
-`(curve_points, Ok (kind, sound))`. -/
-def parseKind (curve : List CP) (x y : Int) (time : Nat) (ty : Int) (sound : Nat) (rest : List Str) :
-    List CP × Except Err (Kind × Nat) :=
-  if hasFlag ty 1 then
-    match parseCustomSound rest.head? sound with
-    | .error e => (curve, .error (.number e))
-    | .ok snd => (curve, .ok (.circle, snd))
-  else if hasFlag ty 2 then
-    match rest with
-    | pointStr :: repeatStr :: rest2 =>
-      match parseI32 repeatStr with
-      | .error e => (curve, .error (.number e))
-      | .ok reps =>
-        if reps > 9000 then (curve, .error .invalidRepeatCount) else
-        -- `repeats - 1` on i32: checked
-        if reps - 1 < -2147483648 then (curve, .error .panic) else
-        let repeats := (if reps - 1 < 0 then 0 else reps - 1).toNat
-        match sliderLen rest2.head? with
-        | .error e => (curve, .error e)
-        | .ok len =>
-          match parseCustomSound rest2[3]? sound with
-          | .error e => (curve, .error (.number e))
-          | .ok snd =>
-            let ns := nodeSounds snd repeats rest2[1]?
-            match convertPathStr curve pointStr x y with
-            | (curve', .error e) => (curve', .error e)
-            | (curve', .ok ()) => ([], .ok (.slider repeats len ns curve', snd))
-    | _ => (curve, .error .invalidHitObjectLine)
-  else if hasFlag ty 8 then
-    match rest with
-    | [] => (curve, .error .invalidHitObjectLine)
-    | es :: rest2 =>
-      match parseF64 es with
-      | .error e => (curve, .error (.number e))
-      | .ok endTime =>
-        match parseCustomSound rest2.head? sound with
-        | .error e => (curve, .error (.number e))
-        | .ok snd => (curve, .ok (.spinner (nz64 (F64.max (F64.sub endTime time) 0)), snd))
-  else if hasFlag ty 128 then
-    match rest.head?.filter (fun s => !s.isEmpty) with
-    | some s =>
-      match splitOnce ':' s with
-      | none => (curve, .error .invalidHitObjectLine)
-      | some (es, bank) =>
-        match parseCustomSound (some bank) sound with
+/-- `max(0, repeats - 1) as usize` with the `i32` subtraction checked -/
+def repeatsOf (reps : Int) : Option Nat :=
+  if reps - 1 < -2147483648 then none else some (if reps - 1 < 0 then 0 else reps - 1).toNat
+
+/-- slider branch after `point_str` and `repeat_count` were taken -/
+def parseSlider (curve : List CP) (x y : Int) (sound : Nat) (pointStr repeatStr : Str)
+    (rest2 : List Str) : List CP × Except Err (Kind × Nat) :=
+  match parseI32 repeatStr with
+  | .error e => (curve, .error (.number e))
+  | .ok reps =>
+    if reps > 9000 then (curve, .error .invalidRepeatCount) else
+    match repeatsOf reps with
+    | none => (curve, .error .panic)
+    | some repeats =>
+      match sliderLen rest2.head? with
+      | .error e => (curve, .error e)
+      | .ok len =>
+        match parseCustomSound rest2[3]? sound with
         | .error e => (curve, .error (.number e))
         | .ok snd =>
-          match parseF64 es with
-          | .error e => (curve, .error (.number e))
-          | .ok endTime => (curve, .ok (.hold (nz64 (F64.sub (F64.max endTime time) time)), snd))
-    | none => (curve, .ok (.hold (nz64 (F64.sub time time)), sound))
+          match convertPathStr curve pointStr x y with
+          | (curve', .error e) => (curve', .error e)
+          | (curve', .ok ()) =>
+            ([], .ok (.slider repeats len (nodeSounds snd repeats rest2[1]?) curve', snd))
+
+def parseCircle (sound : Nat) (rest : List Str) : Except Err (Kind × Nat) :=
+  match parseCustomSound rest.head? sound with
+  | .error e => .error (.number e)
+  | .ok snd => .ok (.circle, snd)
+
+def parseSpinner (time sound : Nat) (rest : List Str) : Except Err (Kind × Nat) :=
+  match rest with
+  | [] => .error .invalidHitObjectLine
+  | es :: rest2 =>
+    match parseF64 es with
+    | .error e => .error (.number e)
+    | .ok endTime =>
+      match parseCustomSound rest2.head? sound with
+      | .error e => .error (.number e)
+      | .ok snd => .ok (.spinner (nz64 (F64.max (F64.sub endTime time) 0)), snd)
+
+def parseHold (time sound : Nat) (rest : List Str) : Except Err (Kind × Nat) :=
+  match rest.head?.filter (fun s => !s.isEmpty) with
+  | some s =>
+    match splitOnce ':' s with
+    | none => .error .invalidHitObjectLine
+    | some (es, bank) =>
+      match parseCustomSound (some bank) sound with
+      | .error e => .error (.number e)
+      | .ok snd =>
+        match parseF64 es with
+        | .error e => .error (.number e)
+        | .ok endTime => .ok (.hold (nz64 (F64.sub (F64.max endTime time) time)), snd)
+  | none => .ok (.hold (nz64 (F64.sub time time)), sound)
+
+/-- everything of `parse_hit_objects` between the five mandatory fields and the final pushes:
+`(curve_points, Ok (kind, sound))`; the flag tests in the order of the source. -/
+def parseKind (curve : List CP) (x y : Int) (time : Nat) (ty : Int) (sound : Nat) (rest : List Str) :
+    List CP × Except Err (Kind × Nat) :=
+  if hasFlag ty 1 then (curve, parseCircle sound rest)
+  else if hasFlag ty 2 then
+    match rest with
+    | pointStr :: repeatStr :: rest2 => parseSlider curve x y sound pointStr repeatStr rest2
+    | _ => (curve, .error .invalidHitObjectLine)
+  else if hasFlag ty 8 then (curve, parseSpinner time sound rest)
+  else if hasFlag ty 128 then (curve, parseHold time sound rest)
   else (curve, .error .unknownHitObjectType)
 
 /-- `Beatmap::parse_hit_objects(state, line)` -/
